@@ -15,8 +15,14 @@ CONSTANTS Conns, Reqs, ConnOf,   \* ConnOf[r]: the connection request r is sent 
           Calls,                 \* the calls of Shutdown on this server (overlapping or one after the other), each with its own context
           SelfNotify,            \* TRUE: a recv loop that ends while the server is closing writes the close notification itself if the
                                  \* poller has not got to its connection yet (repair); FALSE: only the poller notifies
-          RT                     \* a read timeout is configured (FALSE = default: a blocked read is only woken by data or by the close notification)
-VARIABLES st,        \* per request: "unsent" | "sent" | "read" | "running" | "invoked" | "written"
+          RT,                    \* a read timeout is configured (FALSE = default: a blocked read is only woken by data or by the close notification)
+          Idle,                  \* a read timeout and an idle timeout are configured: a recv loop whose read times out on a connection with nothing
+                                 \* buffered and nothing outstanding ends (and its connection is closed) without any shutdown
+          EarlyDec               \* FALSE: the code as written, numInvoke is released when the handler ends, i.e. after the response has been written;
+                                 \* TRUE: a deviation kept for non-vacuity, the counter is released when invoke returns, before the write
+VARIABLES st,        \* per request: "unsent" | "sent" | "read" | "running" | "invoked" | "writing" | "written"
+                     \* ("writing": the handler is in conn.Write; a response that does not fit into the socket buffers keeps it
+                     \*  there for as long as the client does not read, while every other goroutine of the server goes on)
           inbuf,     \* per connection: requests sent and not yet read, FIFO
           hr,        \* per connection: the request being handed to a handler
           rpc,       \* per connection recv loop: "reading" | "handing" | "draining" (returned, waits for numInvoke = 0) | "closed"
@@ -28,20 +34,21 @@ VARIABLES st,        \* per request: "unsent" | "sent" | "read" | "running" | "i
           jobQ, dpc, dj,   \* pool: queue, dispatcher pc ("sel" | "hold" | "stopping" | "dead"), held job
           spc,       \* per Shutdown call: "idle" | "polling" | "returned"
           expired,   \* per Shutdown call: its context has expired
-          lateWrite  \* ghost: a response was written after its connection had been closed
-vars == <<st, inbuf, hr, rpc, sock, numInvoke, notified, isClosed, apc, jobQ, dpc, dj, spc, expired, lateWrite>>
-Running == {r \in Reqs : st[r] \in {"running", "invoked"}}
+          lateWrite, \* ghost: a response was written after its connection had been closed, or its connection was closed under the write
+          early      \* ghost: connections closed (idle) before any call of Shutdown: no notification is owed to them
+vars == <<st, inbuf, hr, rpc, sock, numInvoke, notified, isClosed, apc, jobQ, dpc, dj, spc, expired, lateWrite, early>>
+Running == {r \in Reqs : st[r] \in {"running", "invoked", "writing"}}      \* handlers that occupy a goroutine / a worker of the pool
 Init == /\ st = [r \in Reqs |-> "unsent"] /\ inbuf = [c \in Conns |-> <<>>]
         /\ hr = [c \in Conns |-> 0] /\ rpc = [c \in Conns |-> "reading"] /\ sock = [c \in Conns |-> "open"] /\ numInvoke = [c \in Conns |-> 0] /\ notified = [c \in Conns |-> FALSE]
         /\ isClosed = FALSE /\ apc = "accepting" /\ jobQ = <<>> /\ dpc = "sel" /\ dj = 0
-        /\ spc = [k \in Calls |-> "idle"] /\ expired = [k \in Calls |-> FALSE] /\ lateWrite = FALSE
+        /\ spc = [k \in Calls |-> "idle"] /\ expired = [k \in Calls |-> FALSE] /\ lateWrite = FALSE /\ early = {}
 Polling == \E k \in Calls : spc[k] = "polling"          \* some call of Shutdown is in its poll loop (CloseIdles every 500 ms)
 Begun == \E k \in Calls : spc[k] # "idle"
 
 \* ---- client
 ClientSend(r) == /\ st[r] = "unsent" /\ rpc[ConnOf[r]] \in {"reading", "handing"} /\ sock[ConnOf[r]] = "open" /\ ~notified[ConnOf[r]]
                  /\ st' = [st EXCEPT ![r] = "sent"] /\ inbuf' = [inbuf EXCEPT ![ConnOf[r]] = Append(@, r)]
-                 /\ UNCHANGED <<hr, rpc, sock, numInvoke, notified, isClosed, apc, jobQ, dpc, dj, spc, expired, lateWrite>>
+                 /\ UNCHANGED <<hr, rpc, sock, numInvoke, notified, isClosed, apc, jobQ, dpc, dj, spc, expired, lateWrite, early>>
 \* ---- recv loop of connection c: read one request (handleConn: numInvoke++), then hand it to a handler
 RecvRead(c) ==
   /\ rpc[c] = "reading" /\ inbuf[c] # <<>> /\ sock[c] = "open"
@@ -49,79 +56,90 @@ RecvRead(c) ==
      /\ inbuf' = [inbuf EXCEPT ![c] = Tail(@)]
      /\ numInvoke' = [numInvoke EXCEPT ![c] = @ + 1]
      /\ st' = [st EXCEPT ![r] = "read"] /\ hr' = [hr EXCEPT ![c] = r] /\ rpc' = [rpc EXCEPT ![c] = "handing"]
-  /\ UNCHANGED <<sock, notified, isClosed, apc, jobQ, dpc, dj, spc, expired, lateWrite>>
+  /\ UNCHANGED <<sock, notified, isClosed, apc, jobQ, dpc, dj, spc, expired, lateWrite, early>>
 \* go handler()  /  JobQueue <- handler (blocks while the queue is full)
 Hand(c) ==
   /\ rpc[c] = "handing"
   /\ IF N = 0 THEN st' = [st EXCEPT ![hr[c]] = "running"] /\ UNCHANGED jobQ
      ELSE Len(jobQ) < Q /\ jobQ' = Append(jobQ, hr[c]) /\ UNCHANGED st
   /\ rpc' = [rpc EXCEPT ![c] = "reading"] /\ hr' = [hr EXCEPT ![c] = 0]
-  /\ UNCHANGED <<inbuf, sock, numInvoke, notified, isClosed, apc, dpc, dj, spc, expired, lateWrite>>
+  /\ UNCHANGED <<inbuf, sock, numInvoke, notified, isClosed, apc, dpc, dj, spc, expired, lateWrite, early>>
 \* once the server is closing, a read that times out with an empty buffer ends the loop
 RecvReturn(c) == /\ rpc[c] = "reading"
                  /\ \/ isClosed /\ inbuf[c] = <<>> /\ (RT \/ notified[c] \/ SelfNotify)   \* (a loop that iterates after the close began runs on a 100 ms deadline)
                     \/ sock[c] = "closed"                       \* the poller closed the socket: the read fails, unread requests are dropped
+                    \/ Idle /\ ~isClosed /\ inbuf[c] = <<>> /\ numInvoke[c] = 0    \* idle close: the read timed out, nothing buffered, no handler outstanding
                  /\ rpc' = [rpc EXCEPT ![c] = "draining"] /\ inbuf' = [inbuf EXCEPT ![c] = <<>>]
-                 /\ UNCHANGED <<hr, st, sock, numInvoke, notified, isClosed, apc, jobQ, dpc, dj, spc, expired, lateWrite>>
+                 /\ UNCHANGED <<hr, st, sock, numInvoke, notified, isClosed, apc, jobQ, dpc, dj, spc, expired, lateWrite, early>>
 \* deferred: wait until no handler of this connection is outstanding, then close it
 RecvClose(c) == /\ rpc[c] = "draining" /\ numInvoke[c] = 0
                 /\ rpc' = [rpc EXCEPT ![c] = "closed"] /\ sock' = [sock EXCEPT ![c] = "closed"]
                 /\ notified' = [notified EXCEPT ![c] = @ \/ (SelfNotify /\ isClosed)]
+                /\ early' = (IF isClosed THEN early ELSE early \cup {c})
                 /\ UNCHANGED <<hr, st, inbuf, numInvoke, isClosed, apc, jobQ, dpc, dj, spc, expired, lateWrite>>
 \* ---- pool dispatcher
 DTake == /\ N > 0 /\ dpc = "sel" /\ jobQ # <<>> /\ dj' = Head(jobQ) /\ jobQ' = Tail(jobQ) /\ dpc' = "hold"
-         /\ UNCHANGED <<hr, st, inbuf, rpc, sock, numInvoke, notified, isClosed, apc, spc, expired, lateWrite>>
+         /\ UNCHANGED <<hr, st, inbuf, rpc, sock, numInvoke, notified, isClosed, apc, spc, expired, lateWrite, early>>
 DHand == /\ dpc = "hold" /\ Cardinality(Running) < N
          /\ st' = [st EXCEPT ![dj] = "running"] /\ dpc' = "sel" /\ dj' = 0
-         /\ UNCHANGED <<hr, inbuf, rpc, sock, numInvoke, notified, isClosed, apc, jobQ, spc, expired, lateWrite>>
+         /\ UNCHANGED <<hr, inbuf, rpc, sock, numInvoke, notified, isClosed, apc, jobQ, spc, expired, lateWrite, early>>
 \* ---- handler of request r
+\* invoke returns (the response is computed) ...
 Invoke(r) == /\ st[r] = "running" /\ st' = [st EXCEPT ![r] = "invoked"]
-             /\ UNCHANGED <<hr, inbuf, rpc, sock, numInvoke, notified, isClosed, apc, jobQ, dpc, dj, spc, expired, lateWrite>>
-Write(r) == /\ st[r] = "invoked" /\ st' = [st EXCEPT ![r] = "written"]
-            /\ numInvoke' = [numInvoke EXCEPT ![ConnOf[r]] = @ - 1]
-            /\ lateWrite' = (lateWrite \/ sock[ConnOf[r]] = "closed")
-            /\ UNCHANGED <<hr, inbuf, rpc, sock, notified, isClosed, apc, jobQ, dpc, dj, spc, expired>>
+             /\ numInvoke' = (IF EarlyDec THEN [numInvoke EXCEPT ![ConnOf[r]] = @ - 1] ELSE numInvoke)
+             /\ UNCHANGED <<hr, inbuf, rpc, sock, notified, isClosed, apc, jobQ, dpc, dj, spc, expired, lateWrite, early>>
+\* ... conn.Write(rsp) is entered ...
+WriteBegin(r) == /\ st[r] = "invoked" /\ st' = [st EXCEPT ![r] = "writing"]
+                 /\ lateWrite' = (lateWrite \/ sock[ConnOf[r]] = "closed")
+                 /\ UNCHANGED <<hr, inbuf, rpc, sock, numInvoke, notified, isClosed, apc, jobQ, dpc, dj, spc, expired, early>>
+\* ... and returns, any number of steps of the other goroutines later (the client reads when it pleases); only then the handler
+\* ends and its deferred numInvoke-- runs.  A socket found closed at this point was closed under the write: the response is cut.
+WriteEnd(r) == /\ st[r] = "writing" /\ st' = [st EXCEPT ![r] = "written"]
+               /\ numInvoke' = (IF EarlyDec THEN numInvoke ELSE [numInvoke EXCEPT ![ConnOf[r]] = @ - 1])
+               /\ lateWrite' = (lateWrite \/ sock[ConnOf[r]] = "closed")
+               /\ UNCHANGED <<hr, inbuf, rpc, sock, notified, isClosed, apc, jobQ, dpc, dj, spc, expired, early>>
 \* ---- accept loop
 AcceptExit == /\ apc = "accepting" /\ isClosed /\ apc' = "exited"
-              /\ UNCHANGED <<hr, st, inbuf, rpc, sock, numInvoke, notified, isClosed, jobQ, dpc, dj, spc, expired, lateWrite>>
+              /\ UNCHANGED <<hr, st, inbuf, rpc, sock, numInvoke, notified, isClosed, jobQ, dpc, dj, spc, expired, lateWrite, early>>
 AllConnsClosed == \A c \in Conns : rpc[c] = "closed"       \* every recv goroutine has finished (the connection table is empty)
 AllSocksClosed == \A c \in Conns : sock[c] = "closed"
 \* pool.Release(): the stop is accepted by the dispatcher's select ...
 PoolStop == /\ N > 0 /\ apc = "exited" /\ dpc = "sel" /\ (LateRelease => AllConnsClosed)
             /\ dpc' = "stopping"
-            /\ UNCHANGED <<hr, st, inbuf, rpc, sock, numInvoke, notified, isClosed, apc, jobQ, dj, spc, expired, lateWrite>>
+            /\ UNCHANGED <<hr, st, inbuf, rpc, sock, numInvoke, notified, isClosed, apc, jobQ, dj, spc, expired, lateWrite, early>>
 \* ... and Release returns when every worker has been collected (none is running a handler)
 PoolDead == /\ dpc = "stopping" /\ Running = {} /\ dpc' = "dead" /\ apc' = "released"
-            /\ UNCHANGED <<hr, st, inbuf, rpc, sock, numInvoke, notified, isClosed, jobQ, dj, spc, expired, lateWrite>>
+            /\ UNCHANGED <<hr, st, inbuf, rpc, sock, numInvoke, notified, isClosed, jobQ, dj, spc, expired, lateWrite, early>>
 NoPoolReleased == /\ N = 0 /\ apc = "exited" /\ apc' = "released"
-                  /\ UNCHANGED <<hr, st, inbuf, rpc, sock, numInvoke, notified, isClosed, jobQ, dpc, dj, spc, expired, lateWrite>>
+                  /\ UNCHANGED <<hr, st, inbuf, rpc, sock, numInvoke, notified, isClosed, jobQ, dpc, dj, spc, expired, lateWrite, early>>
 \* ---- Shutdown(ctx)
 \* every call sets isClosed (again), pokes the listener and enters its own poll loop: a call that finds the server already
 \* closing is a call like any other
 ShutdownStart(k) == /\ spc[k] = "idle" /\ spc' = [spc EXCEPT ![k] = "polling"] /\ isClosed' = TRUE
-                 /\ UNCHANGED <<hr, st, inbuf, rpc, sock, numInvoke, notified, apc, jobQ, dpc, dj, expired, lateWrite>>
+                 /\ UNCHANGED <<hr, st, inbuf, rpc, sock, numInvoke, notified, apc, jobQ, dpc, dj, expired, lateWrite, early>>
 \* the poller (OnShutdown / CloseIdles): once the accept loop has exited, the close message goes to every open connection
 Notify == /\ Polling /\ apc # "accepting" /\ \E c \in Conns : ~notified[c] /\ rpc[c] # "closed"
           /\ notified' = [c \in Conns |-> notified[c] \/ rpc[c] # "closed"]
-          /\ UNCHANGED <<hr, st, inbuf, rpc, sock, numInvoke, isClosed, apc, jobQ, dpc, dj, spc, expired, lateWrite>>
+          /\ UNCHANGED <<hr, st, inbuf, rpc, sock, numInvoke, isClosed, apc, jobQ, dpc, dj, spc, expired, lateWrite, early>>
 \* CloseIdles also closes connections it judges idle (no handler outstanding, no recent read)
 PollerClose(c) == /\ Polling /\ notified[c] /\ sock[c] = "open" /\ numInvoke[c] = 0
                   /\ sock' = [sock EXCEPT ![c] = "closed"]
-                  /\ UNCHANGED <<hr, st, inbuf, rpc, numInvoke, notified, isClosed, apc, jobQ, dpc, dj, spc, expired, lateWrite>>
+                  /\ UNCHANGED <<hr, st, inbuf, rpc, numInvoke, notified, isClosed, apc, jobQ, dpc, dj, spc, expired, lateWrite, early>>
 Expire(k) == /\ spc[k] = "polling" /\ ~expired[k] /\ expired' = [expired EXCEPT ![k] = TRUE]
-          /\ UNCHANGED <<hr, st, inbuf, rpc, sock, numInvoke, notified, isClosed, apc, jobQ, dpc, dj, spc, lateWrite>>
+          /\ UNCHANGED <<hr, st, inbuf, rpc, sock, numInvoke, notified, isClosed, apc, jobQ, dpc, dj, spc, lateWrite, early>>
 ShutdownReturn(k) == /\ spc[k] = "polling" /\ (AllSocksClosed \/ expired[k]) /\ spc' = [spc EXCEPT ![k] = "returned"]
-                  /\ UNCHANGED <<hr, st, inbuf, rpc, sock, numInvoke, notified, isClosed, apc, jobQ, dpc, dj, expired, lateWrite>>
+                  /\ UNCHANGED <<hr, st, inbuf, rpc, sock, numInvoke, notified, isClosed, apc, jobQ, dpc, dj, expired, lateWrite, early>>
 Server == \/ \E c \in Conns : RecvRead(c) \/ Hand(c) \/ RecvReturn(c) \/ RecvClose(c)
-          \/ \E r \in Reqs : Invoke(r) \/ Write(r)
+          \/ \E r \in Reqs : Invoke(r) \/ WriteBegin(r) \/ WriteEnd(r)
           \/ DTake \/ DHand \/ AcceptExit \/ PoolStop \/ PoolDead \/ NoPoolReleased \/ Notify
           \/ \E c \in Conns : PollerClose(c)
 Next == Server \/ (\E r \in Reqs : ClientSend(r)) \/ \E k \in Calls : ShutdownStart(k) \/ Expire(k) \/ ShutdownReturn(k)
 Spec == Init /\ [][Next]_vars /\ WF_vars(Server) /\ \A k \in Calls : WF_vars(ShutdownReturn(k))
 
 \* ---------------------------------------------------------------- properties (C12)
-WasRead(r) == st[r] \in {"read", "running", "invoked", "written"}
-TypeOK == /\ \A c \in Conns : numInvoke[c] = Cardinality({r \in Reqs : ConnOf[r] = c /\ WasRead(r) /\ st[r] # "written"})
+WasRead(r) == st[r] \in {"read", "running", "invoked", "writing", "written"}
+Counted(r) == IF EarlyDec THEN st[r] \in {"read", "running"} ELSE WasRead(r) /\ st[r] # "written"
+TypeOK == /\ \A c \in Conns : numInvoke[c] = Cardinality({r \in Reqs : ConnOf[r] = c /\ Counted(r)})
           /\ Len(jobQ) <= Q
 \* a connection is closed only after everything read from it has been answered
 ReadImpliesAnswered == \A r \in Reqs : (sock[ConnOf[r]] = "closed" /\ WasRead(r)) => st[r] = "written"
@@ -132,5 +150,5 @@ ReturnsWhenDrained == \A k \in Calls : spc[k] = "returned" => (AllSocksClosed \/
 ReadGetsAnswered == \A r \in Reqs : WasRead(r) ~> (st[r] = "written")
 ShutdownDrains == \A k \in Calls : (spc[k] = "polling") ~> (AllSocksClosed \/ expired[k])
 \* every connection open when shutdown begins is sent the close message before it is closed
-Notified == \A c \in Conns : (sock[c] = "closed" /\ Begun) => notified[c]
+Notified == \A c \in Conns \ early : (sock[c] = "closed" /\ Begun) => notified[c]
 =============================================================================
